@@ -52,6 +52,62 @@ type Report struct {
 	Coverage   map[string]any
 	Assume     []string
 	samples    []any
+
+	partViolations int
+}
+
+// MergePart folds the evidence written by an earlier partial run (see
+// VERIF_PART_OUT) into this report: integer counters are added, samples
+// concatenated, exhaustive AND-ed, rules joined, violations added.
+func (r *Report) MergePart(path string) {
+	body, err := os.ReadFile(path)
+	if err != nil {
+		return
+	}
+	var ev struct {
+		Coverage    map[string]any `json:"coverage"`
+		Assumptions []string       `json:"assumptions"`
+		Violations  int            `json:"violations"`
+	}
+	if json.Unmarshal(body, &ev) != nil {
+		return
+	}
+	r.mu.Lock()
+	defer r.mu.Unlock()
+	r.partViolations += ev.Violations
+	r.Assume = append(r.Assume, ev.Assumptions...)
+	for k, v := range ev.Coverage {
+		switch k {
+		case "samples":
+			if l, ok := v.([]any); ok {
+				for _, s := range l {
+					if len(r.samples) < 8 {
+						r.samples = append(r.samples, s)
+					}
+				}
+			}
+		case "known_findings_witnessed":
+		case "exhaustive":
+			b, _ := v.(bool)
+			if cur, ok := r.Coverage[k].(bool); ok {
+				b = b && cur
+			}
+			r.Coverage[k] = b
+		case "rule":
+			sv, _ := v.(string)
+			if cur, ok := r.Coverage[k].(string); ok && cur != "" {
+				sv = sv + " || " + cur
+			}
+			r.Coverage[k] = sv
+		default:
+			if f, ok := v.(float64); ok && f == float64(int(f)) {
+				cur, _ := r.Coverage[k].(int)
+				r.Coverage[k] = cur + int(f)
+			} else if _, exists := r.Coverage[k]; !exists {
+				r.Coverage[k] = v
+			}
+		}
+	}
 }
 
 // New starts a report. tier is "quick" or "thorough".
@@ -225,7 +281,7 @@ func (r *Report) Finish() int {
 		"coverage":    r.Coverage,
 		"assumptions": r.Assume,
 		"wall_s":      time.Since(r.start).Seconds(),
-		"violations":  len(r.violations),
+		"violations":  len(r.violations) + r.partViolations,
 	}
 	if r.Assume == nil {
 		ev["assumptions"] = []string{}
@@ -233,12 +289,21 @@ func (r *Report) Finish() int {
 	body, _ := json.MarshalIndent(ev, "", " ")
 	dir := filepath.Join(Root(), "evidence")
 	_ = os.MkdirAll(dir, 0o755)
-	if err := os.WriteFile(filepath.Join(dir, r.Property+".json"), body, 0o644); err != nil {
+	out := filepath.Join(dir, r.Property+".json")
+	if p := os.Getenv("VERIF_PART_OUT"); p != "" {
+		// a partial run (e.g. the sequential half of a two-binary check): the
+		// final binary merges this file into the real evidence
+		out = p
+	}
+	if err := os.WriteFile(out, body, 0o644); err != nil {
 		fmt.Fprintln(os.Stderr, "cannot write evidence:", err)
 		return 2
 	}
-	if len(r.violations) > 0 {
+	if len(r.violations) > 0 || r.partViolations > 0 {
 		return 1
+	}
+	if os.Getenv("VERIF_PART_OUT") != "" {
+		return 0
 	}
 	fmt.Printf("OK property=%s tier=%s wall=%.1fs\n", r.Property, r.Tier, time.Since(r.start).Seconds())
 	return 0
